@@ -519,6 +519,11 @@ def prop_C20(ctx):
     ctx.build()
     recs = generic_sets(ctx, ['corpus', 'struct_grid', 'enum_grid', 'vfield_grid', 'trait_grid', 'comp'], obs_C20)
     recs += ctx.run_set('flatten', gen.c03_cases(ctx.rng, 600 if ctx.tier == 'quick' else 5000), obs_C20)
+    k20 = 1 if ctx.tier == 'quick' else 8
+    recs += ctx.run_set('literal_pattern', gen.c09_cases(ctx.rng, 1500 * k20), obs_C20)
+    recs += ctx.run_set('params', gen.c08_cases(ctx.rng, 1200 * k20), obs_C20)
+    recs += ctx.run_set('generics', gen.c11_cases(ctx.rng, 800 * k20), obs_C20)
+    recs += ctx.run_set('flavours', gen.c07_cases(ctx.rng, 600 * k20) + gen.c07_parent_cases(ctx.rng, 300 * k20), obs_C20)
     n = 0
     for r in recs:
         if vlib.outcome_class(r['out']) != 'ok':
@@ -1941,7 +1946,9 @@ def c11_problems(it, key, imp):
     own_lts = meta['lts']
     m = re.search(r'<(.*)>$', cp)
     cp_args = split_top(m.group(1)) if m else []
-    cp_lts = [a[1:] for a in cp_args if a.startswith("'")]
+    cp_lts_all = [a[1:] for a in cp_args if a.startswith("'")]
+    # 'static and '_ are not lifetime parameters: declaring them (or bounding 'o2o by them) makes the impl ill-formed (E0262)
+    cp_lts = [l for l in cp_lts_all if l not in ('static', '_')]
     decl_names = []
     for g in gens:
         if g.startswith("'"):
@@ -1962,6 +1969,14 @@ def c11_problems(it, key, imp):
     want_self = 'S' + (('<%s>' % ','.join(meta['names'])) if meta['names'] else '')
     if self_ty != want_self:
         probs.append('the deriving type is applied as `%s`, expected `%s`' % (self_ty, want_self))
+    # lifetimes nested inside the type arguments of the counterpart path (`A<&'x str>`, `A<Cow<'x, str>>`) belong to the path too
+    nested = sorted(set(l for a in cp_args if not a.startswith("'") for l in re.findall(r"'(\w+)", a) if l not in ('static', '_')))
+    for lt in nested:
+        if "'" + lt not in decl_names:
+            probs.append("nested-lifetime '%s of the counterpart path is not declared" % lt)
+    for bad in ("'static", "'_"):
+        if bad in decl_names:
+            probs.append("%s is declared as a lifetime parameter of the impl (impl generics %r)" % (bad, gens))
     # counterpart-only lifetimes are declared
     for lt in cp_lts:
         if "'" + lt not in decl_names:
@@ -2013,7 +2028,8 @@ def prop_C11(ctx):
                 continue
             n += 1
             for p in c11_problems(r['item'], key, imp):
-                ctx.report(r, 'impl (%s, fallible=%s, %s): %s' % (key[0], key[1], key[2], p), 'header facts read off the syn-parsed impl', key='header:' + p.split(' ')[0])
+                ctx.report(r, 'impl (%s, fallible=%s, %s): %s' % (key[0], key[1], key[2], p), 'header facts read off the syn-parsed impl',
+                           key='nested-lifetime' if p.startswith('nested-lifetime') else 'header:' + p.split(' ')[0])
     ctx.cov['impl_headers_checked'] = n
     generic_sets(ctx, ['corpus', 'comp'], obs_C11)
     return ctx.finish()
@@ -2106,6 +2122,9 @@ def c17_cell(it):
     has_parent = any(a.name == 'parent' and (a.args is None or a.args == '') for m in it.members for a in getattr(m, 'attrs', []) if isinstance(a, gen.Attr))
     if has_parent and any('return' in (getattr(a, 'params', '') or '') for a in tr):
         return 'qret-parent'
+    if has_parent and any(a.name == 'child' for m in it.members for a in getattr(m, 'attrs', []) if isinstance(a, gen.Attr)) \
+            and any(set(k for k, _ in gen.kinds_of(a.name)) & {'owned_into', 'ref_into'} for a in tr):
+        return 'parent-with-child'      # into() with a bare #[parent] (assignment-style body) and a flattened #[child] member: finding F-17f
     return None
 
 
@@ -2114,7 +2133,8 @@ def prop_C17(ctx):
     q = ctx.tier == 'quick'
     k = 1 if q else 8
     items = gen.c01_cases(ctx.rng, 1200 * k) + gen.c02_cases(ctx.rng, 1200 * k) + gen.c03_cases(ctx.rng, 1000 * k) + gen.c03_hinted_cases(ctx.rng, 600 * k) + gen.c07_cases(ctx.rng, 800 * k) \
-        + gen.c08_cases(ctx.rng, 1200 * k) + gen.c09_cases(ctx.rng, 800 * k) + gen.c11_cases(ctx.rng, 800 * k) + gen.c17_enum_existing(ctx.rng, 60 * k)
+        + gen.c08_cases(ctx.rng, 1200 * k) + gen.c09_cases(ctx.rng, 800 * k) + gen.c11_cases(ctx.rng, 800 * k) + gen.c17_enum_existing(ctx.rng, 60 * k) \
+        + gen.c07_parent_cases(ctx.rng, 500 * k)
     recs = ctx.run_set('accepted_shapes', items, obs_shape, sem=True)
     recs += ctx.run_set('grids', sample(ctx.rng, gen.grid_struct_lines(), 800 * k) + gen.grid_trait_instrs(), obs_shape, sem=True)
     n = 0
